@@ -11,7 +11,8 @@ import (
 type wireEv struct {
 	At   Stamp
 	F    Frame
-	Werr bool // the write failed (the frame never left)
+	Werr bool   // the write failed (the frame never left)
+	Ref  uint64 // rx: event number of the transmission that produced the datagram
 }
 
 type tunView struct {
@@ -55,11 +56,18 @@ func clientView(r *tunRun) *tunView {
 		}
 		switch rec.Kind {
 		case "send", "werr":
-			v.tx = append(v.tx, wireEv{At: Stamp{rec.T, rec.Seq}, F: parseFrame(rec.Data), Werr: rec.Kind == "werr"})
+			ev := wireEv{At: Stamp{rec.T, rec.Seq}, F: parseFrame(rec.Data), Werr: rec.Kind == "werr"}
+			if rec.Seq0 != 0 && ev.F.OK && ev.F.Svc == svcConnReq {
+				// a connect request marks the instant the receive loop left its connection: that is
+				// when the write call began, not when a stalled write let the datagram go
+				ev.At = Stamp{rec.T0, rec.Seq0}
+			}
+			v.tx = append(v.tx, ev)
 		case "read":
-			v.rx = append(v.rx, wireEv{At: Stamp{rec.T, rec.Seq}, F: parseFrame(wholeDatagram(rec))})
+			v.rx = append(v.rx, wireEv{At: Stamp{rec.T, rec.Seq}, F: parseFrame(wholeDatagram(rec)), Ref: rec.Ref})
 		}
 	}
+	sort.SliceStable(v.tx, func(i, j int) bool { return v.tx[i].At.Seq < v.tx[j].At.Seq })
 	return v
 }
 
@@ -258,6 +266,21 @@ func buildConnModel(v *tunView) *connModel {
 				m.connReqTx = append(m.connReqTx, ev.at)
 			case mdConnecting:
 				if attempt == nil {
+					st := ev.at
+					attempt = &st
+					m.connReqTx = append(m.connReqTx, ev.at)
+				}
+			case mdDead:
+				// A connect request right after the disconnect response that "ended" the tunnel:
+				// the loop had left the connection in that very instant for another reason (a
+				// heartbeat giving up at the same tick) and the response was read by the reconnect
+				// exchange, which ignores it. The tunnel lives on.
+				if m.termWhy == "discres" && m.term != nil && ev.at.T-m.term.T <= v.eps && len(m.epochs) > 0 {
+					last := m.epochs[len(m.epochs)-1]
+					last.EndWhy = "async-reconnect"
+					m.term, m.termWhy = nil, ""
+					m.asyncReconnects++
+					mode = mdConnecting
 					st := ev.at
 					attempt = &st
 					m.connReqTx = append(m.connReqTx, ev.at)
